@@ -23,9 +23,7 @@
    slot-store model of the TSD (it is inhabited by a concrete history, c11_history_inhabited);
    (2) the scheduling argument for generic (node / sub-graph) combiners, which re-evaluate only
    when notified - the generic mode is in the model and in the differential (operand logs line by
-   line) but not in a theorem; (3) the combiner COUNT as a number (n-1, resp. 1): the presence
-   characterisation [combiner_presence] is proved, the count is checked by the oracle on every
-   generated case; (4) unreachability of the modelled "inactive bank still occupied" error. *)
+   line) but not in a theorem; (3) unreachability of the modelled "inactive bank still occupied" error. *)
 Require Import Base Reduce ReduceFacts.
 From Coq Require Import PeanoNat Permutation.
 Local Open Scope nat_scope.
@@ -253,6 +251,16 @@ Theorem combiner_presence : forall cf (L : list leaf) k, length L <= 2 ^ k ->
    (pos k j u = 0 /\ c_has_zero cf = true /\ length L = 1) \/ u * 2 ^ j + 2 ^ (j - 1) < length L).
 Proof. exact ReduceFacts.needed_iff. Qed.
 Print Assumptions combiner_presence.
+
+(* combiner_count: in every state satisfying the invariant (after every evaluated cycle, by
+   reduce_eq_fold_cycle): n >= 2 live leaves use exactly n - 1 combiners, a singleton with a zero one,
+   an empty collection or a singleton without zero none - whatever the capacity history *)
+Theorem combiner_count : forall f cf st s vals, pub_inv f cf st s vals ->
+  Reduce.combiner_count s =
+    if 2 <=? length (r_leaves s) then length (r_leaves s) - 1
+    else if c_has_zero cf && (length (r_leaves s) =? 1) then 1 else 0.
+Proof. exact ReduceFacts.state_combiner_count. Qed.
+Print Assumptions combiner_count.
 
 (* ---- non-vacuity ---------------------------------------------------------------------- *)
 
